@@ -80,6 +80,14 @@ type P11 struct {
 	N *int64         `json:"n"`
 }
 
+// P12 nests structs by value three levels deep (P12 -> P3 -> P1): an absent middle object has to be
+// materialised from the defaults of the innermost one.
+type P12 struct {
+	Mid   P3      `json:"mid"`
+	Other P3      `json:"other"`
+	Tag   *string `json:"tag"`
+}
+
 type P9 struct {
 	FieldByName int64
 	Other       string `json:"other,omitempty"`
@@ -117,6 +125,8 @@ func buildStruct(name, id string, props map[string]*schema.PropertySchema) *sche
 		return schema.NewStructMappedObjectSchema[P9](id, props)
 	case "P11":
 		return schema.NewStructMappedObjectSchema[P11](id, props)
+	case "P12":
+		return schema.NewStructMappedObjectSchema[P12](id, props)
 	case "P10":
 		return schema.NewStructMappedObjectSchema[P10](id, props)
 	case "*P10":
@@ -154,6 +164,8 @@ func ZeroStruct(name string) any {
 		return P9{}
 	case "P11":
 		return P11{}
+	case "P12":
+		return P12{}
 	case "P10":
 		return P10{}
 	case "*P10":
